@@ -282,7 +282,7 @@ PROPS = {
     "C19": dict(
         lean_modules=["Beetswap.Props.C19"],
         model_scope=CID_SCOPE,
-        assumptions=CID_ASSUME + ["const-generic sizes: theorems are size-generic, the correspondence samples the pairs {0,1,16,20,31,32,33,48,63,64,128}^2"],
+        assumptions=CID_ASSUME + ["const-generic sizes: theorems are size-generic, the correspondence samples the source capacities {0,1,16,20,31,32,33,48,63,64,128} x the target capacities {0,1,16,20,31,32,33,48,63,64,128,255,256,300}"],
         streams=[
             S("conv", ["--cases", 1000], ["--cases", 500000]),
             S("getsize", ["--cases", 500], ["--cases", 100000]),
